@@ -19,8 +19,11 @@ def one_trace(rng, tid, prop):
         # the other options must not matter for the text either (C15)
         kw.update({"retain_names": rng.random() < 0.5, "retain_coefficients": rng.random() < 0.5,
                    "sort_graded": rng.random() < 0.5, "sort_reverse": rng.random() < 0.5})
-    # sympy round trips of 0-d polynomials with arbitrary double coefficients (default display signs)
-    for _ in range(2):
+    # sympy round trips of 0-d polynomials with arbitrary double coefficients (to_sympy reads str(p) as Python, so only
+    # under the default display signs: C15 may have set others before the trace starts)
+    from ..record import opts_now
+    signs_ok = opts_now()["display_exponent"] == "**" and opts_now()["display_multiply"] == "*"
+    for _ in range(2 if signs_ok else 0):
         names = gen.rand_names(rng, 1, 3, pool=(0, 1, 2, 10, 12))
         spec = gen.rand_poly_spec(rng, shape=(), names=names, kind="float", max_terms=4, max_exp=3, min_terms=1)
         spec["coefs"] = [[rng.uniform(-10.0, 10.0) if rng.random() < 0.8 else rng.choice([0.1, 1.0 / 3.0, 1e-05, 2.5e+20])] for _ in spec["coefs"]]
